@@ -29,7 +29,9 @@ ASSUMPTIONS = ['solid rows hold only solid-locked chemicals and extra liquid row
                'flows of other chemicals are exactly zero; T/P values are plain floats']
 REQUIRED_CELLS = {'quick': ['op:vle.TP', 'op:vle.TV', 'op:vle.TH', 'op:vle.TS', 'op:vle.PV', 'op:vle.PH', 'op:vle.PS',
                             'op:vle.Tx', 'op:vle.Ty', 'op:vle.Px', 'op:vle.Py', 'op:lle', 'op:sle', 'op:vlle', 'op:vlle-ctor',
-                            'op:mix_vle', 'has:light', 'has:heavy', 'has:extra-rows', 'step>0'],
+                            'op:mix_vle', 'has:light', 'has:heavy', 'has:extra-rows', 'step>0',
+                            'vedge:PV:V=1:heavy', 'vedge:PV:V=0:heavy', 'vedge:TV:V=1:heavy', 'vedge:TV:V=0:heavy',
+                            'vedge:PV:V=1:noheavy', 'vedge:TV:V=0:noheavy'],
                   'thorough': []}
 
 T_MIN, T_MAX = 250.0, 500.0
@@ -241,7 +243,7 @@ def draw_vle_kwargs(ch, ctx, th, s, tag, pair, vol_present):
     if 'T' in pair: kw['T'] = ch.float(tag + 'T', T_MIN, T_MAX)
     if 'P' in pair: kw['P'] = ch.logfloat(tag + 'P', *P_LOG)
     if 'V' in pair:
-        v = ch.choice(tag + 'V.special', [0.0, 1.0, None, None, None])
+        v = ch.choice(tag + 'V.special', [None, 0.0, 1.0])
         kw['V'] = ch.float(tag + 'V', 0.0, 1.0) if v is None else v
     for q in 'HS':
         if q in pair:
@@ -542,8 +544,48 @@ def prop_mix(ch, ctx):
     ctx.nontriv(['mix', pid, keys, eb, rk])
 
 
+def prop_vedge(ch, ctx):
+    """The closed ends of the vapour-fraction range: V exactly 0 and exactly 1 (the code branches on V == 0 / V == 1),
+    for both P,V and T,V, with and without gas-locked and liquid/solid-locked chemicals (counted and uncounted)."""
+    pid = ch.choice('pkg', ['L1', 'L2', 'L3', 'L5'])
+    th = package(pid)
+    tmo.settings.set_thermo(th)
+    vol, locked = pkg_lists(pid)
+    n = ch.int('nvol', 1, min(4, len(vol)))
+    names = ch.subset('vol', vol, min_size=n, max_size=n)
+    want = ch.choice('locked', ['heavy', 'heavy', 'light', 'both', 'none'])
+    heavy = [k for k, (ph, _) in locked.items() if ph != 'g']
+    light = [k for k, (ph, _) in locked.items() if ph == 'g']
+    lk = []
+    if want in ('heavy', 'both') and heavy: lk += ch.subset('heavy', heavy, min_size=1, max_size=len(heavy))
+    if want in ('light', 'both') and light: lk += ch.subset('light', light, min_size=1, max_size=len(light))
+    flows = {}
+    for k in list(names) + lk:
+        sp = ch.choice('F.special.' + k, [None, 1.0, 10.0])
+        flows[k] = ch.logfloat('F.' + k, -3, 3) if sp is None else sp
+    s, info = draw_container(ch, th, flows)
+    pair = ch.choice('pair', ['PV', 'TV'])
+    V = ch.choice('V', [1.0, 0.0])
+    kw = {'V': V}
+    if pair == 'PV': kw['P'] = ch.logfloat('P', *P_LOG)
+    else: kw['T'] = ch.float('T', T_MIN, T_MAX)
+    region, nv, li, he = region_of(th, s, 0)
+    region += f',V={int(V)}'
+    ctx.cell(f'vedge:{pair}:V={int(V)}:' + ('heavy' if he else 'noheavy'))
+    ctx.cell('op:vle.' + pair)
+    if li: ctx.cell('has:light')
+    if he: ctx.cell('has:heavy')
+    before = dense(s).sum(axis=0)
+    site = 'vle.' + pair
+    if not guarded(ctx, site, region, lambda: s.vle(**kw)):
+        ctx.reject('documented rejection')
+    check_state(ctx, s, before, site, region, True)
+    ctx.nontriv(['vedge', pid, sorted(flows), info['kind'], info['phases'], pair, V])
+
+
 PROPS = {
     'history': (prop_history, 1100, 50000),
+    'vedge': (prop_vedge, 200, 8000),
     'sle': (prop_sle, 250, 12000),
     'vlle': (prop_vlle, 64, 1500, {'shrink': False}),
     'mix_vle': (prop_mix, 250, 10000),
